@@ -41,3 +41,44 @@ Print Assumptions C15_congruence_union.
 Theorem C15_bare_type : norm ABareType = norm (ATypeOf (Cls C_OBJECT)).
 Proof. reflexivity. Qed.
 Print Assumptions C15_bare_type.
+
+(* ---- the general statements: every documented respelling, anywhere inside an annotation, in any method of any list ---- *)
+From Coq Require Import Permutation.
+From OvldV Require Import Model.TyDom Model.Resolve Proofs.NormRespell.
+
+(* [respell] (Proofs/NormRespell.v) is the least equivalence containing the documented pairs -- Union[..] / A | B / (A, B);
+   Optional[A] / A | None; Any / missing / object; Annotated[A, ..] / A; "A" / A; list[A] / typing.List[A]; type / type[object] --
+   and closed under every compound annotation form.  Related annotations normalise to the same type. *)
+Theorem C15_respelling_same_type : forall a b, respell a b -> norm a = norm b.
+Proof. exact respell_norm. Qed.
+Print Assumptions C15_respelling_same_type.
+
+(* ... so two method lists that differ only by respellings (any number of them, at any depth, in any parameter of any
+   method) are the same list of registered methods: the table lookup, and every other function of it, agree for every
+   class hierarchy and every call *)
+Theorem C15_respelling_same_dispatch : forall sub hasm chk fresh ms ms' k,
+  Forall2 respell_meth ms ms' ->
+  lookup sub hasm chk fresh (map nmeth ms) k = lookup sub hasm chk fresh (map nmeth ms') k.
+Proof. intros sub hasm chk fresh ms ms' k H. exact (respell_dispatch _ (fun l => lookup sub hasm chk fresh l k) ms ms' H). Qed.
+Print Assumptions C15_respelling_same_dispatch.
+
+Theorem C15_respelling_same_continuation : forall sub hasm chk fresh ms ms' caller k,
+  Forall2 respell_meth ms ms' ->
+  lookup_next sub hasm chk fresh (map nmeth ms) caller k = lookup_next sub hasm chk fresh (map nmeth ms') caller k.
+Proof. intros sub hasm chk fresh ms ms' caller k H. exact (respell_dispatch _ (fun l => lookup_next sub hasm chk fresh l caller k) ms ms' H). Qed.
+Print Assumptions C15_respelling_same_continuation.
+
+(* reorderings (members of unions / intersections, values of Literals, at any depth: [reord]) are NOT identities of the
+   model's terms -- the library identifies them by an order-insensitive == (fix 1379476) and the harness hands the model
+   a canonical member order; what is proved here is that the order carries no meaning: the classes that fall under the type
+   are the same, and a Literal has the same bound and the same members *)
+Theorem C15_reorder_same_classes : forall sub hasm chk fresh, (forall c, sub c c = true) ->
+  forall T T' c, reord T T' -> subclasscheck sub hasm chk fresh (Cls c) T = subclasscheck sub hasm chk fresh (Cls c) T'.
+Proof. exact reord_subclasscheck. Qed.
+Print Assumptions C15_reorder_same_classes.
+
+Theorem C15_literal_order : forall sub hasm chk utab vs vs', Permutation vs vs' ->
+  literal_bound vs = literal_bound vs' /\
+  forall v, instance sub hasm chk utab (norm (ALiteral vs)) v = instance sub hasm chk utab (norm (ALiteral vs')) v.
+Proof. exact literal_order. Qed.
+Print Assumptions C15_literal_order.
